@@ -61,7 +61,7 @@ DOC_TABLE = [
 DOC_OTD = [["left_disparity.tif", "."], ["right_disparity.tif", "."], ["left_confidence_measure.tif", "."],
            ["right_confidence_measure.tif", "."], ["left_validity_mask.tif", "."], ["right_validity_mask.tif", "."],
            ["config.json", "./cfg"], ["command_line.txt", "./cfg"]]
-DOC_MAIN = {"writesRightDisp": True, "addsMargins": True}
+DOC_MAIN = {"writesRightDisp": True, "addsMargins": True, "runWritesIndicator": True}
 
 
 def translator_cross_check(report, status, facts):
